@@ -14,7 +14,7 @@ def parse_dims(s):
     return out
 
 def enc(n):
-    return n if n and all(ch.isascii() and (ch.isalnum() or ch == "_") for ch in n) else "x" + (n.encode().hex() if n else "-")
+    return n if n and not n.startswith("x") and all(ch.isascii() and (ch.isalnum() or ch == "_") for ch in n) else "x" + (n.encode().hex() if n else "-")
 
 def run(c):
     c.assumptions += ["the expected member set of `units for` is recomputed in the harness from the registry (units, definitions, categories) without the UnitsFor arm",
